@@ -2,9 +2,9 @@ package harness
 
 import (
 	"flag"
-	"strings"
 	"os"
 	"strconv"
+	"strings"
 	"testing"
 )
 
